@@ -152,6 +152,8 @@ func runC09(e *Env) {
 		"the statement's 'no later handler runs' is checked for the OnPanic hook only; PanicsHandler lets the outer loop continue by design and is only checked for containment, status and router health",
 	}
 	e.RunCases("histories", e.N(12000, 2000000), 0, c09Case)
+	e.RunCases("redispatch-panic", e.N(2000, 200000), 0, c09RedispatchPanic)
+	e.Require("redispatch_panic.checked", 1000)
 	e.Require("panic.in_global_mw", 200)
 	e.Require("panic.in_route_mw", 200)
 	e.Require("panic.in_main", 200)
@@ -163,6 +165,86 @@ func runC09(e *Env) {
 	e.Require("panic.after_commit", 200)
 	e.Require("followups.compared", 5000)
 	e.Require("followups.overlapping_pairs", 1000)
+}
+
+// c09RedispatchPanic: the panicking chain was reached through an internal re-dispatch
+// (Router.HandleContext called by a handler of another chain). The hook runs once, no later
+// handler of either chain starts, the handlers of the calling chain that were suspended in
+// Next() resume, and the response is the hook's.
+func c09RedispatchPanic(t *T) {
+	r := t.R
+	nGlobal, nOuter, nInner := r.IntN(3), r.IntN(5), 1+r.IntN(5)
+	mk := func(prefix string, n int) []*MW {
+		out := make([]*MW, n)
+		for i := range out {
+			out[i] = &MW{ID: fmt.Sprintf("%s%d", prefix, i), Nexts: 1}
+		}
+		return out
+	}
+	globals := mk("G", nGlobal)
+	outer := append(mk("o", nOuter), &MW{ID: "omain", Nexts: 1, Main: true})
+	inner := append(mk("i", nInner-1), &MW{ID: "imain", Nexts: 1, Main: true})
+	j, pIdx := r.IntN(len(outer)), r.IntN(len(inner))
+	val := pick(r, []string{"string", "error", "int"})
+	t.Describe(func() any {
+		return map[string]any{"global": mwList(globals), "outer_chain(/outer)": mwList(outer), "inner_chain(/inner)": mwList(inner),
+			"redispatching_handler": outer[j].ID, "panicking_handler": inner[pIdx].ID, "panic_value": val}
+	})
+	outer[j].Pre = func(c *rux.Context, rec *Rec) {
+		if c.Req.URL.Path == "/outer" {
+			c.Req.URL.Path = "/inner"
+			rec.Ev("redispatch(%s)", outer[j].ID)
+			c.Router().HandleContext(c)
+			rec.Ev("redispatch-returned(%s)", outer[j].ID)
+		}
+	}
+	inner[pIdx].Pre = func(c *rux.Context, rec *Rec) {
+		rec.Ev("panic(%s)", inner[pIdx].ID)
+		panic(panicValue(val))
+	}
+	router := rux.New()
+	router.Use(handlersOf(globals)...)
+	router.GET("/outer", outer[len(outer)-1].Handler(), handlersOf(outer[:len(outer)-1])...)
+	router.GET("/inner", inner[len(inner)-1].Handler(), handlersOf(inner[:len(inner)-1])...)
+	hookRuns := 0
+	router.OnPanic = func(c *rux.Context) {
+		hookRuns++
+		recOf(c).Ev("hook")
+		c.SetStatus(500)
+	}
+	t.AutoSample()
+	var want []string
+	pre := append(append([]*MW{}, globals...), outer[:j]...)
+	for _, m := range pre {
+		want = append(want, "enter("+m.ID+")")
+	}
+	want = append(want, "enter("+outer[j].ID+")", "redispatch("+outer[j].ID+")")
+	for _, m := range append(append([]*MW{}, globals...), inner[:pIdx+1]...) {
+		want = append(want, "enter("+m.ID+")")
+	}
+	want = append(want, "panic("+inner[pIdx].ID+")", "hook", "redispatch-returned("+outer[j].ID+")", "leave("+outer[j].ID+")")
+	for i := len(pre) - 1; i >= 0; i-- {
+		want = append(want, "leave("+pre[i].ID+")")
+	}
+	t.NonTrivial(fmt.Sprint(mwList(globals), mwList(outer), mwList(inner), j, pIdx))
+	rec, pv, escaped := Serve(router, NewReq("GET", "/outer"))
+	t.Count("redispatch_panic.checked", 1)
+	t.Tracef("escaped=%v (%v) hook runs %d status %d trace %s", escaped, pv, hookRuns, rec.Status(), strings.Join(rec.Events, " "))
+	if escaped {
+		t.Fail("panic-escaped-with-hook", "re-dispatch by %s, panic in %s of the re-dispatched chain: an OnPanic hook is installed but a panic escaped ServeHTTP: %v (trace %s)", outer[j].ID, inner[pIdx].ID, pv, strings.Join(rec.Events, " "))
+		return
+	}
+	if hookRuns != 1 {
+		t.Fail("hook-count", "re-dispatch by %s, panic in %s: the OnPanic hook ran %d times, expected exactly once", outer[j].ID, inner[pIdx].ID, hookRuns)
+		return
+	}
+	if !eventsEqual(want, rec.Events) {
+		t.Fail("handler-ran-after-panic:"+classifyTrace(want, rec.Events), "re-dispatch by %s (chain of %d), panic in %s (position %d of a chain of %d):\n expected trace: %s\n observed trace: %s", outer[j].ID, nGlobal+len(outer), inner[pIdx].ID, nGlobal+pIdx, nGlobal+len(inner), strings.Join(want, " "), strings.Join(rec.Events, " "))
+		return
+	}
+	if rec.Status() != 500 || rec.NumWH() != 1 {
+		t.Fail("response-after-panic", "re-dispatch by %s, panic in %s: the hook set status 500; the writer saw: %s", outer[j].ID, inner[pIdx].ID, rec.CallLog())
+	}
 }
 
 func c09Case(t *T) {
